@@ -380,11 +380,12 @@ Record valid_facts (ev : event) : Prop := {
   vf_singles : NoDup (filter (fun s => negb (s =? 0)) (map r_single (e_creates ev)));
   vf_parent : Forall (fun r => val_known (ids (e_arg ev)) (r_parent r)) (e_arg ev);
   vf_argrefs : Forall (fun r => Forall (val_known (ids (e_arg ev))) (r_refs r)) (e_arg ev);
-  vf_cudvals : Forall (fun r => Forall (val_known (all_ids ev)) (row_vals r)) (e_creates ev ++ e_updates ev) }.
+  vf_cudvals : Forall (fun r => Forall (val_known (all_ids ev)) (row_vals r)) (e_creates ev ++ e_updates ev);
+  vf_bound : Forall (fun r => r_id r <= c04_max_record_id) (e_arg ev ++ e_creates ev) }.
 
 Lemma valid_spec ev : valid ev = true -> valid_facts ev.
 Proof.
-  unfold valid. rewrite !andb_true_iff. intros [[[[[[[A B] C] D] E] F] G] H]. constructor.
+  unfold valid. rewrite !andb_true_iff. intros [[[[[[[[A B] C] D] E] F] G] H] I]. constructor.
   - apply forallb_Forall in A. eapply Forall_impl; [|exact A]. cbn. intros r Hr Z. rewrite Z in Hr. discriminate.
   - intros S. rewrite S in B. cbn in B. apply forallb_Forall in B. exact B.
   - apply forallb_Forall in C. eapply Forall_impl; [|exact C]. cbn. intros r Hr. apply negb_true_iff in Hr. exact Hr.
@@ -396,6 +397,7 @@ Proof.
     apply forallb_Forall in Hr. eapply Forall_impl; [|exact Hr]. cbn. intros v Hv. apply known_or_not_raw_spec. exact Hv.
   - apply forallb_Forall in H. eapply Forall_impl; [|exact H]. intros r Hr. cbv beta in Hr.
     apply forallb_Forall in Hr. eapply Forall_impl; [|exact Hr]. cbn. intros v Hv. apply known_or_not_raw_spec. exact Hv.
+  - apply forallb_Forall in I. eapply Forall_impl; [|exact I]. cbn. intros r Hr. lia.
 Qed.
 
 Lemma NoDup_filter_N (f : N -> bool) l : NoDup l -> NoDup (filter f l).
